@@ -105,6 +105,7 @@ type stackOpts struct {
 	maxBacklog int
 	deadlineIn time.Duration
 	lim        core.Limit // default FixedLimit(limit)
+	minRTT     int64      // minimum RTT threshold of the default limiter (default 1 ns)
 }
 
 var blockingKinds = []string{"blocking0", "blocking50", "deadline", "queue-fifo", "queue-lifo", "queue-fifo-evict", "queue-lifo-evict"}
@@ -124,7 +125,10 @@ func buildStack(kind string, lim int, o stackOpts) *stack {
 	}
 	mk := func() {
 		st.strat = newStrategy(o.strategy, lim, nil)
-		st.def = newDefaultLimiter(l, st.strat, 1e6, 1e6, nil)
+		if o.minRTT == 0 {
+			o.minRTT = 1
+		}
+		st.def = newDefaultLimiterRTT(l, st.strat, 1e6, 1e6, o.minRTT, nil)
 		st.rec = &recDelegate{inner: st.def}
 		st.rec.qsize = func() int {
 			if !vrt.Active() {
